@@ -20,10 +20,8 @@ def place_world(c, L, allow_sfm=True, fok_choices=(None, "FILL_OR_KILL"), vwap="
         size = c.choose("size", concrete_sizes["order"])
     else:
         size = c.cents("size", 1, 1000000)
-    if tif == "FILL_OR_KILL":
-        mfs = c.cents("min_fill", 1, 2000000) if c.choose("min_fill_given", [False, True]) else None
-    else:
-        mfs = None
+    # (a minimum fill size may also be given on a plain limit order: it is then not a fill-or-kill order)
+    mfs = c.cents("min_fill", 1, 2000000) if c.choose("min_fill_given", [False, True]) else None
     n_atb = c.choose("n_atb", range(L + 1))
     n_atl = c.choose("n_atl", range(L + 1))
     atb = cm.ladder(c, "b", n_atb, "atb")
@@ -35,7 +33,7 @@ def place_world(c, L, allow_sfm=True, fok_choices=(None, "FILL_OR_KILL"), vwap="
             lv["size"] = c.choose("ls%d_c" % i, concrete_sizes["level"])
     if n_atb and n_atl:
         c.assume(atb[0]["price"] < atl[0]["price"])
-    if tif == "FILL_OR_KILL" and bpe:
+    if (tif == "FILL_OR_KILL" or vwap == "only") and bpe:
         # the VWAP sweep (fill-or-kill priced strictly through the best price) multiplies prices by sizes:
         # with both symbolic the obligations are non-linear integer arithmetic that z3 does not decide in
         # the budget, so that branch is explored by H05c with concrete sizes (all prices still symbolic)
@@ -71,7 +69,7 @@ def h05a(c, L=2, vwap="exclude", concrete_sizes=None):
     """one placement through the real SimulatedExecution.execute_place -> SimulatedOrder.place on a symbolic book"""
     with cm.config_set(simulated=True):
         w = place_world(c, L, vwap=vwap, concrete_sizes=concrete_sizes, allow_sfm=(vwap != "only"),
-                        fok_choices=(None, "FILL_OR_KILL") if vwap != "only" else ("FILL_OR_KILL",))
+                        fok_choices=(None, "FILL_OR_KILL"))
         order, side, price, size = w["order"], w["side"], w["price"], w["size"]
         sim = order.simulated
         frags = list(sim.matched)
@@ -103,6 +101,8 @@ def h05a(c, L=2, vwap="exclude", concrete_sizes=None):
                 c.ob("fragment%d.within-level" % i, c.Or(*[c.And(p == lv["price"], s <= lv["size"]) for lv in avail]) if avail else False)
                 for j in range(i):
                     c.ob("fragment%d.level-distinct-from-%d" % (i, j), p != frags[j][1])
+        if not fok:
+            c.ob("plain-limit-order.nothing-cancelled-on-arrival", sim.size_cancelled == 0)
         if fok and frags:
             c.cover("fok-fill")
         if fok and frags and vwap == "only":
@@ -145,7 +145,8 @@ def h05a(c, L=2, vwap="exclude", concrete_sizes=None):
 def h05b(c, V=2):
     """a resting order and one real SimulatedOrder.__call__ with traded volume: every new fragment is at the order's
     own price and within what remains"""
-    with cm.config_set(simulated=True):
+    avail = c.choose("simulation_available_prices", [False, True])
+    with cm.config_set(simulated=True, simulation_available_prices=avail):
         side = c.choose("side", ["BACK", "LAY"])
         price = c.cents("price", 101, 100000)
         size = c.cents("size", 1, 1000000)
@@ -169,6 +170,15 @@ def h05b(c, V=2):
         for i, tp in enumerate(tprices):
             if c.choose("traded%d_present" % i, [True, False]):
                 traded[tp] = c.cents("traded%d" % i, 1, 2000000)
+        levels = []
+        if avail:
+            # the (non-default) mode that also matches a resting order against the prices on offer in each later book
+            traded = {}
+            levels = cm.ladder(c, "lv", V, "atb" if side == "BACK" else "atl")
+            if side == "BACK":
+                bk.runners[0].ex.available_to_back = levels
+            else:
+                bk.runners[0].ex.available_to_lay = levels
         before = len(sim.matched)
         rem_before = sim.size_remaining
         with c.guard("__call__"):
@@ -184,9 +194,16 @@ def h05b(c, V=2):
             c.ob("passive%d.size>0" % i, s > 0)
             tot = tot + s
         c.ob("passive.total<=remaining", tot <= rem_before)
+        if avail:
+            offered = 0
+            for lv in levels:
+                offered = offered + c.ite((lv["price"] >= price) if side == "BACK" else (lv["price"] <= price), lv["size"], 0)
+            c.ob("available.total<=offered-at-or-through-the-limit", tot <= offered)
+            if new:
+                c.cover("available-fill")
         c.ob("remaining>=0", sim.size_remaining >= 0)
         eligible = [tp for tp in traded if c.is_true((tp >= price) if side == "BACK" else (tp <= price))]
-        if not eligible:
+        if not eligible and not avail:
             c.cover("no-eligible-trade")
             c.ob("no-eligible-trade.no-fill", len(new) == 0)
 
@@ -201,7 +218,7 @@ HARNESSES = [
     Harness("H05c", h05a, quick=dict(L=2, vwap="only", concrete_sizes=CS_Q), thorough=dict(L=3, vwap="only", concrete_sizes=CS_T),
             pattern="P1 kernel-with-oracle", requires=["fok-fill", "fok-kill", "multi-level-fill"],
             outside=["VWAP sweep with order/level sizes outside the listed concrete sets (prices: every 2dp value, symbolic)"]),
-    Harness("H05b", h05b, quick=dict(V=2), thorough=dict(V=3), pattern="P2 inductive step", requires=["passive-fill", "no-eligible-trade"],
+    Harness("H05b", h05b, quick=dict(V=2), thorough=dict(V=3), pattern="P2 inductive step", requires=["passive-fill", "no-eligible-trade", "available-fill"],
             outside=["traded ladders with more than V price points per update (prices concrete: 1.5, 2.0, 3.0)"]),
 ]
 META = {"assumptions": ["Python float modelled as exact decimal rational; round() relational (both neighbours at exact ties)",
